@@ -213,6 +213,30 @@ func run(c *core.Ctx) int {
 			}
 		}
 	}
+	// concurrent in-flight calls on one module instance (finite call A returns/traps before the cause fires)
+	concShapes := []string{"loop-br", "loop-br_if", "nested-inner-backedge", "loop-calls-function", "loop-through-host", "return_call-self"}
+	concCauses := []string{"cancel", "deadline", "close", "cancel-cause", "deadline-timeoutcause", "cancel-of-timeout-ctx"}
+	if thorough {
+		for _, ls := range loopShapes {
+			concShapes = append(concShapes, ls.Name)
+		}
+		concCauses = append(ctxCauses(), "close", "close-inline")
+	}
+	for _, sh := range concShapes {
+		for _, eng := range engines {
+			for _, cause := range concCauses {
+				for _, order := range concOrders {
+					for _, cx := range concCtxs {
+						akind := []string{"ret", "trap"}[rng.Intn(2)]
+						add(caseSpec{Shape: sh, Entry: "export", Ticked: true}, eng, cause, []int{0, 1, 7, 100}[rng.Intn(4)])
+						tc := &tcases[len(tcases)-1]
+						tc.WithStack = false
+						tc.Conc = &concSpec{Order: order, AKind: akind, Ctx: cx}
+					}
+				}
+			}
+		}
+	}
 	var wcases []tcase
 	wcombos := [][2]any{{"cancel", 0}, {"deadline", 0}, {"close", 0}, {"cancel", -1}, {"deadline", -1}, {"close", -1}}
 	for i, cs := range specsTickless() {
@@ -482,16 +506,30 @@ func (d *decider) tickedResult(tc tcase, r core.CaseResult) {
 	}
 	if t.NeverClosed {
 		if t.CtrlDone {
-			d.violate("module-not-closed-after-ctx-done:"+cause+":"+eng, "ctx-close:"+eng, pt,
+			sigp, grp := "", "ctx-close:"+eng
+			if tc.Conc != nil {
+				// only with other calls in flight on the same instance: its own root cause
+				sigp, grp = "concurrent-calls:", "conc-ctx-close:"+eng
+				group = grp
+			}
+			d.violate(sigp+"module-not-closed-after-ctx-done:"+cause+":"+eng, grp, pt,
 				fmt.Sprintf("the harness' own watcher goroutine saw ctx.Done, but %v later the module of the in-flight call was still not closed (tick %d)", closedWatchdog, t.FiredAt), wit())
-			d.judged("ctx-close:"+eng, pt)
+			d.judged(grp, pt)
 			d.evals++
 		} else {
 			c.Inconclusive("closed-never-observed")
 		}
 		return
 	}
-	if causeKind(cause) != "close" {
+	if tc.Conc != nil {
+		c.Count("concurrent_cases_"+tc.Conc.Order+"_"+tc.Conc.Ctx, 1)
+		for _, a := range t.AResults {
+			c.Count("concurrent_finite_call_"+strings.SplitN(a, "/", 2)[0], 1)
+		}
+		if causeKind(cause) != "close" {
+			d.judged("conc-ctx-close:"+eng, pt)
+		}
+	} else if causeKind(cause) != "close" {
 		d.judged("ctx-close:"+eng, pt)
 	}
 	d.evals++
@@ -724,7 +762,9 @@ func replay(c *core.Ctx, path string) int {
 		fmt.Printf(";; module %s\n%s\n", mb.Name, wdis.Module(mb.Bin))
 	}
 	var out any
-	if tc.Ticked {
+	if tc.Conc != nil {
+		out = runConc(tc)
+	} else if tc.Ticked {
 		out = runTicked(tc, false)
 	} else {
 		out = runWatchdog(tc, false)
